@@ -56,7 +56,7 @@ def lockPreimage (root : List UInt8) (appendix specs : List (List UInt8)) : List
 /-- `updateWithChecker`: the steps the C05 writer actor performs, in order -/
 def updateWithCheckerSkeleton : List String :=
   ["call:tempfiles.MovableTempFileProvider.NewFile", "defer:temp.Close", "call:writeManifest", "call:temp.Sync", "call:writeHook",
-   "call:openIfExists", "call:parseManifest", "if:lastLock != upstream.lock", "return:upstream, nil", "call:validate",
+   "call:openIfExists", "call:parseManifest", "if:lastLock != upstream.lock", "call:validate",
    "call:file.Rename", "call:file.SyncDirectoryHandle", "return:newContents, nil"]
 
 /-- grace prune: snapshot, quiescence test, then (under the manifest lock) mtime re-check, keepers, stat, unlink -/
